@@ -584,10 +584,6 @@ def run(tier, replay=None):
         r.violation("impl-%s" % clause, {"kind": "direct property check failed on the implementation", "clause": clause,
                                          "case": l[:3000], "program": small, "program_unshrunk": full or text,
                                          "replay_cmd": "%s replay %s" % (exe, shlex.quote(small))})
-    for i, (ch, failure, d) in enumerate(exact_fail[:3]):
-        r.violation("exact-%d" % i, {"kind": "small integer program decided exactly: " + failure, "program": d["text"],
-                                     "returned": {"status": d["status"], "x": d["x"], "fx": d["fx"], "u": d["u"], "v": d["v"]},
-                                     "replay_cmd": "%s replay %s" % (exe, shlex.quote(d["text"]))})
     prop = [(ch, l) for ch, l in mism if l.startswith("PROPFAIL") and not l.startswith("PROPFAIL reduce-")]
     rprop = [(ch, l) for ch, l in mism if l.startswith("PROPFAIL reduce-")]
     corr = [(ch, l) for ch, l in mism if l.startswith("MISMATCH")]
@@ -614,6 +610,10 @@ def run(tier, replay=None):
                       "C04_reduce_same_solutions / C04_reduce_inconsistent_preserved evaluated on the implementation by exact elimination "
                       "over Q): hexadecimal doubles, rows separated by `;`")
         r.violation(what, pl)
+    for i, (ch, failure, d) in enumerate(exact_fail[:3]):
+        r.violation("exact-%d" % i, {"kind": "small integer program decided exactly: " + failure, "program": d["text"],
+                                     "returned": {"status": d["status"], "x": d["x"], "fx": d["fx"], "u": d["u"], "v": d["v"]},
+                                     "replay_cmd": "%s replay %s" % (exe, shlex.quote(d["text"]))})
     for i, (ch, l) in enumerate(prop[:2]):
         case = byid.get((ch, re.search(r"id=(\S+)", l).group(1)), "")
         r.violation("prop-%d" % i, {"kind": "feasibility clause violated (exact arithmetic, driver oracle)", "detail": l,
@@ -631,13 +631,19 @@ def run(tier, replay=None):
                                                      "full-pivoting LU factorisation: the hypothesis of the reduce theorems fails on this input",
                              }.get(what, "the library's reduced [A'|b'] is not what the proved model assembles from (P, L, U, rank) of Eigen's "
                                          "fullPivLu of [A|b]^T (U^T.block(0,0,rank,n) * L^T * P)")
+            pl["broken_obligation"] = None if cres["ok"] else cres.get("broken")
             r.violation("corr-%s" % what, pl, no_input=not (impl_fail or exact_fail or prop or rprop))
             continue
         m = re.search(r"id=(\S+)", l)
         case = byid.get((ch, m.group(1)), "") if m else ""
+        meaning = "the returned state is not what the proved model of update()/feasible()/done() gives on this input"
+        if what == "u-positive":
+            meaning = ("the invariant proved of the step-length model (C04_step_keeps_positive: with s0 < 1 every accepted step keeps the "
+                       "multipliers strictly positive) fails on a returned state: u >= 0, the hypothesis of the gap theorems, is no longer "
+                       "guaranteed by the iteration")
         r.violation("corr-%s" % what, {"kind": "model/implementation disagreement", "detail": l, "program": case.split(" = ")[0],
-                                       "case": case[:4000],
-                                       "meaning": "the returned state is not what the proved model of update()/feasible()/done() gives on this input"},
+                                       "case": case[:4000], "meaning": meaning,
+                                       "broken_obligation": None if cres["ok"] else cres.get("broken")},
                     no_input=not (impl_fail or exact_fail or prop or rprop))
     for ch, l in genbad[:1]:
         r.violation("generator", {"kind": "generator defect: constructed optimum is not an exact KKT point (defect of the check)",
